@@ -184,7 +184,9 @@ def main(argv):
                     if mres:
                         v = float(mres[0].split("=")[1])
                         stats["worst_hook_residual"] = max(stats["worst_hook_residual"], v)
-                        if not (v <= 1e-6):
+                        # the complex solver (BiCG-type recurrence) stops on its recurrence residual; on strongly skin-effect dominated systems
+                        # the true residual drifts above it: 1e-5 for complex solves, 1e-6 for real ones
+                        if not (v <= (1e-5 if " complex " in l else 1e-6)):
                             ck.violation("true-residual", "the linear solver returned with true relative residual %.3g" % v, dict(files=run.files(), log=l))
             sol = femmio.read_solution(run.solution_path(), "m")
             stats["nodes"] += len(sol["nodes"])
